@@ -398,7 +398,7 @@ def parse_model(reply):
 def run(ctx):
     rng = ctx.rng
     progs = _fixed_corpus()
-    for _ in range(ctx.n(150, 2500)):
+    for _ in range(ctx.n(150, 2000)):
         progs.append(gen_program(rng))
     results = []
     for i, p in enumerate(progs):
